@@ -116,6 +116,7 @@ def run_case(case):
 
 
 def enumerations(tier, shard, nshards):
+    yield from enumerations_small(tier, shard, nshards)
     if shard != 0:
         return
 
@@ -131,3 +132,25 @@ def enumerations(tier, shard, nshards):
             yield {"gfa": case["gfa"], "gaf": canon, "dir": "s2u2s" if stable else "u2s2u", "bgzf": case["bgzf"]}
 
     yield ("large BGZF files whose records end exactly on 64 KiB boundaries (4400 x 128 B unstable, 700 x 256 B stable)", gen(), True)
+
+
+def enumerations_small(tier, shard, nshards):
+    def gen():
+        g, recs = conv.small_space_records(canonical=True, max_steps=3 if tier == "quick" else 5)
+        gfa = gen_graph.gfa_text(g, with_seq=True, order_seed=5)
+        chunk = 250
+        k = 0
+        for direction in ('u2s2u', 's2u2s'):
+            for i in range(0, len(recs), chunk):
+                k += 1
+                if k % nshards != shard:
+                    continue
+                part = recs[i:i + chunk]
+                if direction.startswith("u2s"):
+                    lines = [gen_gaf.record_line(r) for r in part]
+                else:
+                    lines = [conv.stable_line(g["nodes"], r) for r in part]
+                yield {"gfa": gfa, "gaf": lines, "dir": direction, "via": "api"}
+
+    yield ("exhaustive: every walk of 1-3 (quick) / 1-5 (thorough) steps over a fixed 8-segment graph (reference run, abutting and separated haplotype "
+           "segments, inversion, hairpin, tandem duplication, deletion) x boundary offsets, both directions", gen(), True)
